@@ -161,6 +161,41 @@ func mineV1(workers int, data []byte, target float64) (uint64, string) {
 	return n, ""
 }
 
+// Long-lived Workers (seeded changes C12-h, C11-h: a per-Worker cache of the target hash / the required zero count keyed
+// by the target score alone): one Worker per worker count serves a whole series of Mine calls, as a node's would.
+var sharedV1 = map[int]*pow.Worker{}
+var sharedV2 = map[int]*powv2.Worker{}
+
+func mineV2shared(workers int, data []byte, target uint64) (uint64, string) {
+	if sharedV2[workers] == nil {
+		sharedV2[workers] = powv2.New(workers)
+	}
+	ctx, cancel := context.WithTimeout(context.Background(), 60*time.Second)
+	defer cancel()
+	n, err := sharedV2[workers].Mine(ctx, data, target)
+	if err != nil {
+		return 0, err.Error()
+	}
+	return n, ""
+}
+
+func mineV1shared(workers int, data []byte, target float64) (uint64, string) {
+	if sharedV1[workers] == nil {
+		sharedV1[workers] = pow.New(workers)
+	}
+	ctx, cancel := context.WithTimeout(context.Background(), 60*time.Second)
+	defer cancel()
+	n, err := sharedV1[workers].Mine(ctx, data, target)
+	if err != nil {
+		return 0, err.Error()
+	}
+	return n, ""
+}
+
+// seriesLens: message lengths of a series mined by one Worker with one target score — up and down, so that len·t crosses
+// several powers of three in both directions between consecutive calls
+var seriesLens = []int{0, 40, 1, 100, 19, 400, 2, 1000, 6000, 3}
+
 var pow3 = func() []*big.Int {
 	p := make([]*big.Int, 245)
 	p[0] = big.NewInt(1)
@@ -424,6 +459,29 @@ func genC12(g *G) {
 			}
 		}
 	}
+	// series on long-lived Workers: the same target score for messages of very different lengths, then another score
+	series := []uint64{30, 300}
+	if g.thorough {
+		series = append(series, 7, 2000)
+	}
+	for _, t := range series {
+		for _, w := range []int{1, 3} {
+			for _, dl := range seriesLens {
+				if dl > 1000 && (t > 300 || (!g.thorough && t > 30)) {
+					continue
+				}
+				data := g.r.bytes(dl)
+				if nonce, e := mineV2shared(w, data, t); e == "" {
+					g.emit("pow.mined", "v2", hx(data), strconv.FormatUint(t, 10), strconv.FormatUint(nonce, 10))
+					if w == 1 && nonce < 20000 {
+						g.emit("pow2.nopassover", hx(data), strconv.FormatUint(t, 10), strconv.FormatUint(nonce, 10))
+					}
+				} else {
+					g.emit("pow.minefailed", "v2", e)
+				}
+			}
+		}
+	}
 }
 
 func genC11(g *G) {
@@ -499,6 +557,26 @@ func genC11(g *G) {
 					continue
 				}
 				if nonce, e := mineV1(w, data, t); e == "" {
+					g.emit("pow.mined", "v1", hx(data), strconv.FormatFloat(t, 'g', -1, 64), strconv.FormatUint(nonce, 10))
+				} else {
+					g.emit("pow.minefailed", "v1", e)
+				}
+			}
+		}
+	}
+	// series on long-lived Workers: the same target score for messages of very different lengths, then another score
+	series := []float64{50, 3}
+	if g.thorough {
+		series = append(series, 400, 0.5)
+	}
+	for _, t := range series {
+		for _, w := range []int{1, 3} {
+			for _, dl := range seriesLens {
+				if dl > 1000 && (t > 100 || (!g.thorough && t > 3)) {
+					continue
+				}
+				data := g.r.bytes(dl)
+				if nonce, e := mineV1shared(w, data, t); e == "" {
 					g.emit("pow.mined", "v1", hx(data), strconv.FormatFloat(t, 'g', -1, 64), strconv.FormatUint(nonce, 10))
 				} else {
 					g.emit("pow.minefailed", "v1", e)
